@@ -14,6 +14,7 @@ CONSTANTS
   MaxCh = {maxch}
   MaxRegions = {maxreg}
   MaxSlots = {maxslots}
+  MaxSets = {maxsets}
   MaxOps = {maxops}
   MinOps = {minops}
   MaxQueue = {maxqueue}
@@ -25,12 +26,12 @@ INVARIANTS TypeOK OneReceiver DeadQueuesEmpty DeliveredOnce {export}
 """
 
 
-def gen(wd, name, agents=(0,), maxch=2, maxreg=1, maxslots=1, maxops=4, maxqueue=2, regionlens=(1,),
+def gen(wd, name, agents=(0,), maxch=2, maxreg=1, maxslots=1, maxsets=0, maxops=4, maxqueue=2, regionlens=(1,),
         kinds=("typed",), minops=0, simulate=None, depth=None, export=True, workers=8, tlcseed=None, view=False,
         timeout=3000):
     cfg = os.path.join(wd, name + ".cfg")
     with open(cfg, "w") as f:
-        f.write(CFG.format(agents=", ".join(map(str, agents)), maxch=maxch, maxreg=maxreg, maxslots=maxslots,
+        f.write(CFG.format(agents=", ".join(map(str, agents)), maxch=maxch, maxreg=maxreg, maxslots=maxslots, maxsets=maxsets,
                            maxops=maxops, minops=minops, maxqueue=maxqueue, pick="random" if simulate else "all", regionlens=", ".join(map(str, regionlens)),
                            kinds=", ".join('"%s"' % k for k in kinds), export="Export" if export else "",
                            view="VIEW View" if view else ""))
@@ -111,6 +112,8 @@ def classify(b):
         k = o["op"]
         if k in ("send", "probe"):
             feats.append((k, o["res"], tuple(s["k"] for s in o.get("slots", [])), o.get("big")))
+        elif k == "setdrain":
+            feats.append((k, o["n"], tuple((len(e["tags"]), e["closed"]) for e in o["evs"])))
         elif k in ("recv", "drain"):
             feats.append((k, o.get("mode"), o["res"], tuple(s["k"] for s in o.get("slots", []))))
         else:
